@@ -573,7 +573,7 @@ def run(res, tier, seed):
         "air-gap states (exported) and bundle import are outside C27's network path and not modelled",
     ]
 
-    n = 260 if tier == "quick" else 6000
+    n = 380 if tier == "quick" else 6000
     t1 = time.time()
     cases = corpus_cases() + [gen_case(rng, i) for i in range(n)]
     out = run_impl(cases, tier)
@@ -612,7 +612,7 @@ def run(res, tier, seed):
     res.cov["samples"] = [{k: c[k] for k in ("max_attempts", "paths", "events")} for c in (out[1], out[len(out) // 2])]
 
     reported = False
-    for i in orf:
+    for i in sorted(orf, key=lambda j: len(out[j]["events"]))[:1]:
         c = out[i]
 
         def fails(cand):
@@ -630,7 +630,7 @@ def run(res, tier, seed):
                       {"kind": "obligation-failed", "theorems": [t for t, _ in failed], "detail": [r for _, r in failed]},
                       no_input=True, suffix="obligation")
     if (dis or bad) and not reported:
-        i = (dis + sorted(bad))[0]
+        i = sorted(dis + sorted(bad), key=lambda j: len(out[j]["events"]))[0]
         c = out[i]
 
         def fails2(cand):
